@@ -134,11 +134,15 @@ def glob_to_re(pat):
 
 
 def load_findings(prop):
-    path = os.path.join(ROOT, "known_findings.jsonl")
+    paths = [os.path.join(ROOT, "known_findings.jsonl")]
+    if os.environ.get("VERIF_EXTRA_FINDINGS"):  # development aid only; never set by MANIFEST commands
+        paths.append(os.environ["VERIF_EXTRA_FINDINGS"])
     out = []
-    if not os.path.exists(path):
-        return out
-    for ln, line in enumerate(open(path), 1):
+    lines = []
+    for path in paths:
+        if os.path.exists(path):
+            lines += list(open(path))
+    for ln, line in enumerate(lines, 1):
         line = line.strip()
         if not line or line.startswith("#"):
             continue
